@@ -250,6 +250,27 @@ func (g *Gen) genCompLine(p *ProgDef) (string, []string) {
 	if g.pct(5) {
 		args = []string{}
 	}
+	if g.pct(8) {
+		// white space other than single blanks: tabs, runs, leading white space, white-space-only
+		// lines (COMP_LINE is split on Go's \s+ : [\t\n\f\r ]; \v is not white space there)
+		switch g.r.Intn(6) {
+		case 0:
+			line = strings.Replace(line, " ", "\t", 1)
+		case 1:
+			line = strings.Replace(line, " ", "  \t ", -1)
+		case 2:
+			line = " " + line
+		case 3:
+			line = []string{"\t", " ", "\n", " \t", "   ", "\r", "\f "}[g.r.Intn(7)]
+		case 4:
+			line = strings.Replace(line, " ", "\v", 1)
+		default:
+			line = strings.TrimPrefix(line, "./prog")
+		}
+		if line == "" {
+			line = " "
+		}
+	}
 	return line, args
 }
 
